@@ -70,9 +70,9 @@ CHECKS = {
     ),
     "C19": dict(
         engine="crash", category="fault_enumeration", design_ref="DESIGN.md §4.6",
-        technique="deterministic simulation with crash injection: forked process incarnations killed at every traced line of mxlpy/parallel.py and at byte offsets of every result file (torn writes), reruns compared with a cache-free reference",
-        text="For seeded workloads (parallelise with a logging function, scan.time_course, scan.steady_state; int/str/tuple keys; results 0..70 kB; sequential or simulated pool) the histories 'no cache -> run killed at p [-> killed again] -> rerun -> rerun' are executed for EVERY line-level kill point inside mxlpy/parallel.py (exhaustive per workload), sampled kill points in all mxlpy frames, and byte-granular torn writes of every result file (whole process or single worker dies). Rerun must complete and equal the cache-free reference for every key; a further run must recompute nothing; an uninterrupted cached run must equal the reference.",
-        note="Process-kill semantics only (what reached the OS survives; no power-loss reordering). C-level writes inside pickle.dump are interrupted only through the path seam. In-process SimPool: one task is in flight at a time, several simultaneously torn files are approximated by double-crash histories.",
+        technique="deterministic simulation with crash injection: forked process incarnations killed at every traced line of mxlpy/parallel.py and at byte offsets of every result file (torn writes), reruns compared with a cache-free reference; lockstep pool (one parked thread per task, seeded step choice) for workers in flight together, per-task timeouts and whole-process death at scheduler steps",
+        text="For seeded workloads (parallelise with a logging function, scan.time_course, scan.steady_state, scan.protocol, mc.time_course; int/str/tuple/near-identical keys; results 0..70 kB; sequential or simulated pool) the histories 'no cache -> run killed at p [-> killed again] -> rerun -> rerun' are executed for EVERY line-level kill point inside mxlpy/parallel.py (exhaustive per workload), sampled kill points in all mxlpy frames, and byte-granular torn writes of every result file (whole process or single worker dies). Rerun must complete and equal the cache-free reference for every key; a further run must recompute nothing; an uninterrupted cached run must equal the reference. Also: several cached runs inside one process (caller mutates returned results, wipes and reuses the directory, an in-process interruption followed by a rerun under the same pid); and pool workloads under the lockstep back-end, where several workers are mid-write at once while the parent handles a task timeout, and where the process dies at a scheduler step with several temporaries on disk - the cached run must complete exactly when the uncached run under the same plan does, return the same keys and values, and the reruns must complete, agree and recompute nothing.",
+        note="Process-kill semantics only (what reached the OS survives; no power-loss reordering). C-level writes inside pickle.dump are interrupted only through the path seam. Lockstep workers are threads of one process (one pid): pid-dependent naming is exercised through the same-pid rerun history instead.",
     ),
     "C20": dict(
         engine="fit", category="exploration", design_ref="DESIGN.md §4.8",
@@ -84,7 +84,7 @@ CHECKS = {
 
 ENGINES = [
     {"name": "simkit", "path": "simkit/", "serves_properties": sorted(CHECKS), "kind_free_text": "seeded scheduler core: labelled PRNG streams, fork-based runner with watchdog, trace digests, ddmin shrinker, replay files, known-finding matching, evidence writer"},
-    {"name": "crash", "path": "simkit/machines/crash.py", "serves_properties": ["C19"], "kind_free_text": "crash-history machine: fork+settrace kill points, CrashPath torn writes (simkit/crashfs.py), SimPool (simkit/simpool.py)"},
+    {"name": "crash", "path": "simkit/machines/crash.py", "serves_properties": ["C19"], "kind_free_text": "crash-history machine: fork+settrace kill points, CrashPath torn writes (simkit/crashfs.py), SimPool (simkit/simpool.py) incl. lockstep back-end (simkit/lockstep.py)"},
     {"name": "fit", "path": "simkit/machines/fit.py", "serves_properties": ["C20"], "kind_free_text": "fit machine: SimMinimizer seam, fresh-model residual oracle, honesty runs"},
     {"name": "mca", "path": "simkit/machines/mca.py", "serves_properties": ["C18"], "kind_free_text": "MCA machine: sequential vs SimPool schedules, snapshots, analytic power-law sensitivities"},
     {"name": "scans", "path": "simkit/machines/scans.py", "serves_properties": ["C09"], "kind_free_text": "scan-schedule machine: SimPool (simkit/simpool.py), Faulty/ExactLinear integrators, independent-row oracle"},
